@@ -87,6 +87,246 @@ def _normalise(node):
         stack.extend(inner)
 
 
+# locals of the C sources as they were when the rules were written: the rules use some of them as anchors (i, j, k in ptnghb; ip, ipp in
+# pt_fld), so only locals introduced LATER (hoisted sub-expressions, row pointers, cached sizes) are propagated away
+KNOWN_C_LOCALS = frozenset("""args data diff dims ep1 fact i iaddr iang ic_dist ic_label iempty ifict_pixel ifreq ih ihmax iihmax imd imi imo in ind init
+iorder ip ipart ipartout ipp ippp ipt iq iq_end iq_start iv iwshed j jl jn k m mask min msave n nk nnspec nth numv self size spec specin zmax zmin
+zp zpmax""".split())
+_PURE_CALLS = {"PyArray_DIMS", "PyArray_DATA", "PyArray_NDIM", "PyArray_SHAPE", "PyArray_DIM"}
+
+
+def _jwalk(n):
+    stack = [n]
+    while stack:
+        x = stack.pop()
+        if isinstance(x, dict):
+            yield x
+            stack.extend(reversed(x.get("inner") or []))
+
+
+def _jcopy(n):
+    if isinstance(n, dict):
+        return {k: _jcopy(v) for k, v in n.items() if k != "_p"}
+    if isinstance(n, list):
+        return [_jcopy(x) for x in n]
+    return n
+
+
+def _strip_j(n):
+    while isinstance(n, dict) and n.get("kind") in ("ImplicitCastExpr", "ParenExpr", "CStyleCastExpr", "ConstantExpr") and n.get("inner"):
+        n = n["inner"][-1]
+    return n
+
+
+def _propagate_locals(fn):
+    """AST normalisation (copy propagation): a local scalar / pointer that is defined exactly once, by an expression whose operands
+    cannot change between the definition and the uses, is replaced by that expression at its uses and the definition is dropped:
+    `base = 9*n; .. neigh[k + base]`  ==  `neigh[k + 9*n]`,   `row = neigh + 9*jl; .. row[jn]`  ==  `(neigh + 9*jl)[jn]`.
+    Operands allowed: literals; variables that are never assigned in the function after the definition point except as the
+    control variable of a `for` loop that encloses the definition; elements of arrays that the function never stores to;
+    calls of pure numpy accessors.  Applied to a fixed point (a propagated local may feed another)."""
+    body = next((c for c in fn.get("inner", []) if isinstance(c, dict) and c.get("kind") == "CompoundStmt"), None)
+    if body is None:
+        return 0
+    total = 0
+    for _ in range(6):
+        # definitions and writes
+        decls = {}
+        for n in _jwalk(body):
+            if n.get("kind") == "VarDecl" and n.get("storageClass") != "static":
+                decls[n["id"]] = n
+        writes, stores, defs = {}, set(), {}
+        parents = {}
+        for n in _jwalk(body):
+            for c in n.get("inner") or []:
+                if isinstance(c, dict):
+                    parents[id(c)] = n
+        for n in _jwalk(body):
+            k = n.get("kind")
+            if k in ("BinaryOperator", "CompoundAssignOperator") and n.get("opcode", "").endswith("=") and n.get("opcode") not in ("==", "!=", "<=", ">="):
+                lhs = _strip_j(n["inner"][0])
+                if lhs.get("kind") == "DeclRefExpr":
+                    vid = lhs["referencedDecl"]["id"]
+                    writes[vid] = writes.get(vid, 0) + 1
+                    if k == "BinaryOperator" and n.get("opcode") == "=":
+                        defs.setdefault(vid, []).append(n)
+                    else:
+                        writes[vid] += 5
+                else:
+                    b = lhs
+                    while b.get("kind") in ("ArraySubscriptExpr", "UnaryOperator", "MemberExpr") and b.get("inner"):
+                        b = _strip_j(b["inner"][0])
+                    if b.get("kind") == "DeclRefExpr":
+                        stores.add(b["referencedDecl"]["id"])
+            elif k == "UnaryOperator" and n.get("opcode") in ("++", "--"):
+                t = _strip_j(n["inner"][0])
+                if t.get("kind") == "DeclRefExpr":
+                    writes[t["referencedDecl"]["id"]] = writes.get(t["referencedDecl"]["id"], 0) + 5
+            elif k == "UnaryOperator" and n.get("opcode") == "&":
+                t = _strip_j(n["inner"][0])
+                if t.get("kind") == "DeclRefExpr":
+                    writes[t["referencedDecl"]["id"]] = writes.get(t["referencedDecl"]["id"], 0) + 5      # address taken
+        for vid, d in decls.items():
+            if len(d.get("inner") or []) >= 1 and d.get("init"):
+                writes[vid] = writes.get(vid, 0) + 1
+                defs.setdefault(vid, []).append(d)
+        # loop control variables: for (v = ..; ..; v++)
+        def loopvars_enclosing(node):
+            out = set()
+            p = parents.get(id(node))
+            while p is not None:
+                if p.get("kind") == "ForStmt":
+                    ini = p["inner"][0]
+                    if isinstance(ini, dict) and ini.get("kind"):
+                        for x in _jwalk(ini):
+                            if x.get("kind") == "DeclRefExpr":
+                                out.add(x["referencedDecl"]["id"])
+                                break
+                            if x.get("kind") == "VarDecl":
+                                out.add(x["id"])
+                                break
+                p = parents.get(id(p))
+            return out
+        done = 0
+        for vid, dl in defs.items():
+            if vid not in decls or writes.get(vid, 0) != 1 or len(dl) != 1:
+                continue
+            if decls[vid].get("name") in KNOWN_C_LOCALS:
+                continue
+            d = dl[0]
+            rhs = d["inner"][-1] if d.get("kind") == "VarDecl" else d["inner"][1]
+            stmt = d if d.get("kind") != "VarDecl" else parents.get(id(d))
+            # the defining statement must be a statement of its own (not nested in another expression, e.g. `a = b = e`)
+            par = parents.get(id(stmt))
+            if par is None or par.get("kind") not in ("CompoundStmt",):
+                continue
+            if d.get("kind") == "VarDecl" and len([c for c in stmt.get("inner", []) if isinstance(c, dict)]) != 1:
+                continue
+            lv = loopvars_enclosing(stmt)
+            ok = True
+            for x in _jwalk(rhs):
+                k = x.get("kind")
+                if k == "DeclRefExpr":
+                    rid = x["referencedDecl"]["id"]
+                    rk = x["referencedDecl"].get("kind")
+                    if rk == "FunctionDecl":
+                        if x["referencedDecl"].get("name") not in _PURE_CALLS:
+                            ok = False
+                    elif rid == vid:
+                        ok = False
+                    elif rid in lv:
+                        pass
+                    elif writes.get(rid, 0) > (1 if rid in decls else 0):
+                        ok = False          # operand assigned more than once / modified: not provably stable
+                    elif rid in decls and writes.get(rid, 0) == 1 and not decls[rid].get("init"):
+                        # single later assignment: only safe when it is a propagated candidate itself (handled in a later round)
+                        ok = False
+                elif k == "ArraySubscriptExpr":
+                    b = _strip_j(x["inner"][0])
+                    while b.get("kind") in ("BinaryOperator",) and b.get("inner"):
+                        b = _strip_j(b["inner"][0])
+                    if b.get("kind") == "DeclRefExpr" and b["referencedDecl"]["id"] in stores:
+                        ok = False          # reads an array this function writes
+                elif k in ("CallExpr",):
+                    cal = _strip_j(x["inner"][0])
+                    if not (cal.get("kind") == "DeclRefExpr" and cal["referencedDecl"].get("name") in _PURE_CALLS):
+                        ok = False
+                elif k in ("UnaryOperator",) and x.get("opcode") in ("++", "--", "&", "*"):
+                    ok = False
+            if not ok:
+                continue
+            # substitute at every use
+            uses = 0
+            for n in _jwalk(body):
+                inner = n.get("inner") or []
+                for i, c in enumerate(inner):
+                    if isinstance(c, dict) and c.get("kind") == "DeclRefExpr" and c["referencedDecl"]["id"] == vid and not (n is d):
+                        if n.get("kind") in ("BinaryOperator",) and n.get("opcode") == "=" and i == 0:
+                            continue
+                        inner[i] = {"kind": "ParenExpr", "inner": [_jcopy(rhs)], "range": c.get("range", {}), "type": c.get("type", {})}
+                        uses += 1
+            # drop the definition
+            lst = par["inner"]
+            if stmt in lst:
+                lst.remove(stmt)
+            done += 1
+        total += done
+        if not done:
+            break
+    return total
+
+
+def _inline_void_helpers(roots):
+    """AST normalisation: a call statement `helper();` of a parameterless void function defined in the same file is replaced by the
+    helper's body (extract-function refactorings of an initialisation sequence)."""
+    funcs = {}
+    for r in roots:
+        tops = r.get("inner", []) if r.get("kind") == "TranslationUnitDecl" else [r]
+        for n in tops:
+            if n.get("kind") == "FunctionDecl" and any(c.get("kind") == "CompoundStmt" for c in n.get("inner", [])):
+                if not any(c.get("kind") == "ParmVarDecl" for c in n.get("inner", [])) and n.get("type", {}).get("qualType", "").startswith("void"):
+                    funcs[n["name"]] = n
+    count = 0
+
+    def helper_of(c):
+        if isinstance(c, dict) and c.get("kind") == "CallExpr" and len(c.get("inner", [])) == 1:
+            cal = _strip_j(c["inner"][0])
+            nm = cal.get("referencedDecl", {}).get("name") if cal.get("kind") == "DeclRefExpr" else None
+            h = funcs.get(nm)
+            if h is not None and nm not in ("partinit", "ptnghb") and not any(x.get("kind") == "ReturnStmt" for x in _jwalk(h)) and not any(
+                    x.get("kind") == "CallExpr" and _strip_j(x["inner"][0]).get("referencedDecl", {}).get("name") == nm for x in _jwalk(h)):
+                return nm, h
+        return None, None
+    used = set()
+    # unbraced bodies:  if (c) helper();   for (..) helper();
+    for r in roots:
+        for n in _jwalk(r):
+            if n.get("kind") in ("IfStmt", "ForStmt", "WhileStmt", "DoStmt"):
+                inner = n.get("inner") or []
+                for i, c in enumerate(inner):
+                    nm, h = helper_of(c)
+                    if h is not None:
+                        hb = next(x for x in h["inner"] if x.get("kind") == "CompoundStmt")
+                        inner[i] = {"kind": "CompoundStmt", "inner": [_jcopy(x) for x in hb.get("inner", [])], "range": c.get("range", {})}
+                        used.add(nm)
+                        count += 1
+    for r in roots:
+        for n in _jwalk(r):
+            if n.get("kind") != "CompoundStmt":
+                continue
+            inner = n.get("inner") or []
+            i = 0
+            while i < len(inner):
+                c = inner[i]
+                if isinstance(c, dict) and c.get("kind") == "CallExpr" and len(c.get("inner", [])) == 1:
+                    cal = _strip_j(c["inner"][0])
+                    nm = cal.get("referencedDecl", {}).get("name") if cal.get("kind") == "DeclRefExpr" else None
+                    h = funcs.get(nm)
+                    if h is not None and nm not in ("partinit", "ptnghb") and not any(
+                            x.get("kind") == "ReturnStmt" for x in _jwalk(h)) and not any(
+                            x.get("kind") == "CallExpr" and _strip_j(x["inner"][0]).get("referencedDecl", {}).get("name") == nm for x in _jwalk(h)):
+                        hb = next(x for x in h["inner"] if x.get("kind") == "CompoundStmt")
+                        new = [_jcopy(x) for x in hb.get("inner", [])]
+                        inner[i:i + 1] = new
+                        count += 1
+                        used.add(nm)
+                        i += len(new)
+                        continue
+                i += 1
+    # a helper that is no longer called anywhere has become part of its callers: drop its definition
+    still = set()
+    for r in roots:
+        for n in _jwalk(r):
+            if n.get("kind") == "CallExpr":
+                cal = _strip_j(n["inner"][0])
+                if cal.get("kind") == "DeclRefExpr":
+                    still.add(cal.get("referencedDecl", {}).get("name"))
+    for r in roots:
+        if r.get("kind") == "TranslationUnitDecl":
+            r["inner"] = [n for n in r.get("inner", []) if not (n.get("kind") == "FunctionDecl" and n.get("name") in used and n.get("name") not in still)]
+    return count
+
+
 def _multi_json(text):
     dec = json.JSONDecoder()
     i, n, out = 0, len(text), []
@@ -122,6 +362,13 @@ class CFile:
         roots = _multi_json(_dump(path, filt, inc))
         for r in roots:
             _normalise(r)
+        self.norm_inlined = _inline_void_helpers(roots)
+        self.norm_propagated = 0
+        for r in roots:
+            tops = r.get("inner", []) if r.get("kind") == "TranslationUnitDecl" else [r]
+            for n in tops:
+                if n.get("kind") == "FunctionDecl":
+                    self.norm_propagated += _propagate_locals(n)
         self.roots = roots
         self.funcs = {}
         self.globals = []
@@ -247,7 +494,12 @@ def ex(n):
     if k == "UnaryOperator":
         return ("un", n["opcode"] + ("post" if n.get("isPostfix") and n["opcode"] in ("++", "--") else ""), ex(n["inner"][0]))
     if k == "ArraySubscriptExpr":
-        return ("idx", ex(n["inner"][0]), ex(n["inner"][1]))
+        b, i = ex(n["inner"][0]), ex(n["inner"][1])
+        if b[0] == "bin" and b[1] == "+" and b[2][0] == "var":
+            return ("idx", b[2], ("bin", "+", b[3], i))          # (arr + off)[i]  ==  arr[off + i]
+        if b[0] == "bin" and b[1] == "+" and b[3][0] == "var" and b[2][0] != "var":
+            return ("idx", b[3], ("bin", "+", b[2], i))
+        return ("idx", b, i)
     if k == "CallExpr":
         return ("call", ex(n["inner"][0]), tuple(ex(a) for a in n["inner"][1:]))
     if k == "ConditionalOperator":
